@@ -66,6 +66,7 @@ type batchScn struct {
 	stagger       bool       // item i takes (i+1)*execDur
 	unwrap        bool       // hand flyt the *BatchNode inside the builder instead of the builder
 	nByRun        []int      // item count of each run (repeated runs of one node object); default n
+	budgetByRun   []int      // retry budget of each run (set with the builder method before the run)
 	cancelFromRun int        // the cancel spec applies to runs with at least this index (earlier runs are not cancelled)
 	feedback      bool       // repeated runs: the result slice post received becomes, AS IT IS, the items of the next run
 	cancel        cancelSpec // cancellation injection
@@ -219,10 +220,15 @@ func (sc *batchScn) scenario() Scenario {
 		stop, c := sc.stop, sc.c
 		for r := 0; r < runs; r++ {
 			scr := sc
-			if r < len(sc.nByRun) {
-				// this run of the same node object has its own number of items
+			if r < len(sc.nByRun) || r < len(sc.budgetByRun) {
+				// this run of the same node object has its own number of items / retry budget
 				cp := *sc
-				cp.n = sc.nByRun[r]
+				if r < len(sc.nByRun) {
+					cp.n = sc.nByRun[r]
+				}
+				if r < len(sc.budgetByRun) {
+					cp.budget = sc.budgetByRun[r]
+				}
 				scr = &cp
 			}
 			b = &BR{sc: scr, h: h, runIdx: r, payload: scr.payloads(), it: make([]itemState, scr.n), afterCancel: map[int]int{}}
@@ -304,6 +310,9 @@ func (b *BR) run() {
 		b.h.nb, b.h.store = b.buildNode()
 	}
 	nb, store := b.h.nb, b.h.store
+	if len(sc.budgetByRun) > 0 {
+		nb.WithMaxRetries(sc.budget) // re-configured (through the builder method) before every run
+	}
 	b.execute(ctx, nb, store)
 }
 
